@@ -19,15 +19,15 @@ ASSUMPTIONS = ["node iterable yields distinct hashable labels (duplicates in `no
                "*_edges variants only on 0..n-1 graphs whose arcs stay inside range(n)",
                "recursion limit 20000 (worker setting); deepest generated DFS path 400"]
 STRATA = [
-    ("random-small", 4000, 60000),
-    ("blueprint", 4000, 60000),
-    ("dag", 1500, 22000),
-    ("near-dag", 1500, 22000),
-    ("outside", 3000, 45000),
-    ("subset", 1500, 22000),
-    ("labels", 1500, 22000),
-    ("multi-weak", 1200, 18000),
-    ("deep", 120, 1500),
+    ("random-small", 6000, 60000),
+    ("blueprint", 6000, 60000),
+    ("dag", 2200, 22000),
+    ("near-dag", 2200, 22000),
+    ("outside", 4500, 45000),
+    ("subset", 2200, 22000),
+    ("labels", 2200, 22000),
+    ("multi-weak", 1800, 18000),
+    ("deep", 150, 1500),
     ("exh-n3", 1, 1),
     ("exh-n4-p0", 1, 1),
     ("exh-n4-p1", 1, 1),
